@@ -976,6 +976,7 @@ func main() {
 			}
 		}
 		rep.AddOracle(torc)
+		binaryOracle(rep, o)
 		borc := vh.NewOracle("replica.breaker", "the circuit breaker itself ends (execution timeout 50 ms vs a 250 ms replica, caller context alive) or refuses (MaxConcurrent = 1, several bulks in flight) a shard attempt; per payload: acknowledged => a full replica set per tier accepted exactly that payload; non-trivial = a bulk that was not acknowledged, or acknowledged after a timed-out/rejected attempt")
 		brng := vh.NewRNG(o.Seed + 123)
 		for i := 0; i < o.Pick(4, 24); i++ {
